@@ -4,6 +4,8 @@ import (
 	"fmt"
 	"os"
 	"path/filepath"
+	"runtime"
+	"strings"
 
 	"verif.local/gcsim/simapi"
 )
@@ -32,6 +34,37 @@ func extraCorpus() map[string]string {
 			if e.IsDir() {
 				out["o_"+e.Name()] = filepath.Join(old, e.Name())
 			}
+		}
+	}
+	for k, v := range realWorldCorpus() {
+		out[k] = v
+	}
+	return out
+}
+
+// realWorldCorpus lists real code (r_<name>): small and medium packages of the
+// standard library of the toolchain in use. The maintainers' examples exercise
+// each checker on purpose-written snippets; real code brings the shapes nobody
+// wrote on purpose (types with methods in sibling files, build-constrained
+// files, long functions, generated tables, deep nesting). GCSIM_REALWORLD=0
+// switches it off.
+var corpusTier = "quick" // set from the job before the corpus is indexed
+
+func realWorldCorpus() map[string]string {
+	out := map[string]string{}
+	if os.Getenv("GCSIM_REALWORLD") == "0" {
+		return out
+	}
+	root := filepath.Join(runtime.GOROOT(), "src")
+	// the quick tier takes six small packages, the thorough tier all of them
+	list := []string{"container/list", "container/heap", "errors", "path", "encoding/hex", "text/tabwriter"}
+	if corpusTier == "thorough" {
+		list = append(list, "strings", "bytes", "bufio", "sort", "path/filepath", "encoding/csv", "flag", "go/token", "go/scanner", "net/url", "log", "mime", "text/scanner")
+	}
+	for _, p := range list {
+		d := filepath.Join(root, filepath.FromSlash(p))
+		if st, err := os.Stat(d); err == nil && st.IsDir() {
+			out["r_"+strings.ReplaceAll(p, "/", "_")] = d
 		}
 	}
 	return out
